@@ -292,7 +292,7 @@ func runProperty(eng *Engine, prop, tier string, opts solveOpts, evidence, repla
 			inlined[shortKey(a)] = true
 		}
 		for _, o := range u.obls {
-			if safetyKinds[o.Kind] && prop != "C07" {
+			if safetyKinds[o.Kind] && prop != "C07" && !(o.Kind == "decreases" && contains(o.Props, prop)) {
 				continue
 			}
 			if o.Kind == "close-once" && !(prop == "C02" || prop == "C09" || prop == "C07") {
